@@ -762,6 +762,17 @@ class Executor:
             selfv = st.env.get(st.env.get("__first_arg__"))
             yield st, SuperProxy(selfv, cls)
             return
+        if isinstance(e.func, ast.Name) and e.func.id == "cast" and len(e.args) == 2 and not e.keywords:
+            import typing
+
+            try:
+                is_cast = self.lookup("cast", st, e.lineno) is typing.cast
+            except Unsupported:
+                is_cast = False
+            if is_cast:
+                # typing.cast(T, v) is the identity; the type expression is dropped (DESIGN.md section 3)
+                yield from self.ev(e.args[1], st)
+                return
         if (isinstance(e.func, ast.Attribute) and e.func.attr in _MUTATORS and isinstance(e.func.value, ast.Name)
                 and isinstance(st.env.get(e.func.value.id), (list, dict))):
             yield from self._mutator_call(e, st)
